@@ -32,6 +32,12 @@
 //	C17-render        (render.go) DocumentError rendering: exhaustive small files and random long files against
 //	    an independent reference of line number, shown source text and caret; each file also with ONE error value
 //	    moved through its positions (forwards, backwards, random jumps) and rendered after every SetIndex.
+//	C17-addtype       (addtype.go) the calls that assemble a schema out of several sources: AddType of regex types
+//	    whose pattern holds bytes / runes that Go's %q spells differently from JSON (control characters, DEL, invalid
+//	    UTF-8, non-printable runes) under quantifiers that let the generated example omit them, AddType of JSight
+//	    types that got types and enum rules added to themselves first (at most one defect, padded so that offsets exceed
+//	    the other sources), AddRule of enum rules, then Check / Validate / Example: every error names a source of
+//	    the run with the position inside it, and goes through the facade leg.
 //	C17-facade        (facade.go) every error the streams above obtain (validation errors, JSON / schema / enum /
 //	    regex parsing errors, check errors inside added types) and every rendered value of the render stream is ALSO
 //	    handed through the SDK facade kit.ConvertError(file, err), once per caller file: the file the error belongs
@@ -39,6 +45,10 @@
 //	    the empty or another name whose text is shorter than the position or longer with other line breaks. The
 //	    result's Filename / Position / Message / ErrCode / IncorrectUserType and its rendering (Error, Line,
 //	    SourceSubString) must be those of the error itself - the error's own file, never the caller's - without panic.
+//	    EVERY result of the facade - also for an error handed out wrapped ("load added type: %w") and for a foreign
+//	    error - must satisfy the clause of property C07 on what the caller gets: Filename() names the caller's file or
+//	    a file of the run, Position() lies inside that file's text, code / message are those of the innermost library
+//	    error (then file and position are that error's, too) or the generic conversion carrying its text.
 //
 // The document / schema / rule files are created under several file names including the empty one in every stream.
 //
@@ -72,8 +82,11 @@ func Run(args []string) {
 		"oracle by construction + Lean scanner models / encoding/json, and random one-byte edits vs the Lean scanner model; render: all files of <= 6 (quick) / 7 (thorough) bytes over "+
 		"{a,space,tab,LF,CR} x all positions + random files up to 600 bytes with lines around and beyond 200 bytes, fresh error values and one re-used value walking through the file; file names incl. the empty one everywhere; "+
 		"facade: every error of every stream also through kit.ConvertError(file, err) for the error's own file, every other file of the run and companion files "+
-		"(same / empty / other name, text shorter than the position or longer), result = the error itself (file, position, code, message, user type, rendering). "+
-		"nontrivial = every planted case; a render file of >= 2 bytes")
+		"(same / empty / other name, text shorter than the position or longer), result = the error itself (file, position, code, message, user type, rendering); every result "+
+		"(also of wrapped and foreign errors) names a file of the run / the caller's file with the position inside its text, and is the innermost library error with its own file and position or the generic conversion; "+
+		"addtype: regex types from parts with special atoms (control bytes, DEL, invalid UTF-8, non-printable runes; quantified {0} * ? {0,1} group class alternation) under several generator seeds, "+
+		"JSight types with one defect added to types added to the root, enum rules with one defect, padded sources, own / empty / other / shared file names, every step's error: a source of the run, position inside, facade leg. "+
+		"nontrivial = every planted case; a render file of >= 2 bytes; an addtype run with at least one error")
 	only := ""
 	if len(args) > 0 {
 		only = args[0]
@@ -92,6 +105,9 @@ func Run(args []string) {
 	}
 	if only == "" || only == "lex" {
 		runLexPos(rep)
+	}
+	if only == "" || only == "addtype" {
+		runAddType(rep)
 	}
 	rep.Exhaustive = false
 	rep.Finish()
